@@ -10575,6 +10575,43 @@ func ruleCacheInitHeight(c *Ctx) {
 		})
 	}
 	c.Floor("uses of the state height in InitializeCache", n, 2)
+	// The committee a restarted node reads from storage is the committee of the current epoch, and the validators of
+	// the next block are its first GetNumOfCNs(h) members for a height h *of that epoch*. ValidatorsHistory changes
+	// the count at the first block of an epoch; asked for blockHeight+1, which can be that block, the count is the new
+	// epoch's while the committee is the old one's: a node restarted one block before the change answers
+	// GetNextBlockValidators with another number of keys than the node that kept running, or cannot start at all
+	// (slice bound beyond the committee). Where NEO.updateCache slices the stored committee, the bound comes from
+	// GetNumOfCNs of the state height itself.
+	if fd := c.P.Func("pkg/core/native", "NEO", "updateCache"); fd == nil {
+		c.Lost("cache-init-height.updateCache", "NEO.updateCache not found")
+	} else {
+		f := c.P.NewFuncCFG(fd)
+		found := false
+		ast.Inspect(fd.Decl.Body, func(x ast.Node) bool {
+			sl, ok := x.(*ast.SliceExpr)
+			if !ok || sl.High == nil {
+				return true
+			}
+			call, ok := ast.Unparen(sl.High).(*ast.CallExpr)
+			if !ok || !strings.HasSuffix(f.calleeSym(call), ".GetNumOfCNs") || len(call.Args) != 1 {
+				return true
+			}
+			found = true
+			_, off, ok := linearForm(f, call.Args[0], 0)
+			if id, isId := ast.Unparen(call.Args[0]).(*ast.Ident); isId && f.params[f.Info.ObjectOf(id)] {
+				off, ok = 0, true
+			}
+			if ok && off == 0 {
+				c.OK("NEO.updateCache.epoch-count", c.P.Pos(sl.Pos()), "the stored committee is cut to the validator count of its own epoch")
+			} else {
+				c.Fail("NEO.updateCache.epoch-count", c.P.Pos(sl.Pos()), fmt.Sprintf("NEO.updateCache cuts the committee it was given - on start-up the committee of the current epoch, read from storage - to GetNumOfCNs(%s): when the next block is the first of an epoch in which ValidatorsHistory changes the count, that is the new epoch's number applied to the old epoch's committee. A node restarted one block before the change reports another number of next-block validators than the node that kept running (4 -> 1: one key instead of four), and where the new number exceeds the stored committee (1 -> 4) it cannot start: 'slice bounds out of range [:4] with capacity 1'", types.ExprString(call.Args[0])))
+			}
+			return true
+		})
+		if !found {
+			c.Lost("cache-init-height.updateCache.shape", "NEO.updateCache no longer slices the committee by GetNumOfCNs")
+		}
+	}
 }
 
 // ruleReadOnlyRespected (C04): a notification, once emitted, is recorded as a deep copy marked read-only, and that is
